@@ -416,6 +416,8 @@ let () =
        | "matesin" :: n :: r -> print_endline (b2s (spec_mates_in (n_of_string n) (parse_game (Array.of_list r) 0)))
        | "wf" :: r -> print_endline (b2s (wf (parse_game (Array.of_list r) 0)))
        | "inv" :: r -> print_endline (b2s (legal_inv_b (parse_game (Array.of_list r) 0)))
+       | "inv3" :: r -> let g = parse_game (Array.of_list r) 0 in print_endline (b2s (legal_inv_b g) ^ b2s (men16_b g) ^ b2s (prow2_b g))
+       | "mirror" :: r -> print_endline (game_fields (mirror (parse_game (Array.of_list r) 0)))
        | "specperft" :: r -> print_endline (do_specperft r)
        | "perft" :: d :: r -> print_endline (string_of_n (perft_n (n_of_string d) (parse_game (Array.of_list r) 0)))
        | x :: _ -> print_endline ("BADREQ " ^ x))
